@@ -848,6 +848,59 @@ fn c08_round_not_held_open() {
     std::mem::forget(st);
 }
 
+// =========================================================================== C09: a transient send failure
+/// `fail_probe` (what `do_send` calls on `Error::ProbeFailed`) with the initial sequence, the round
+/// start and the round size ALL concrete, so that whatever index the code computes is a constant:
+/// exactly the probe issued last (slot size - 1 of the CURRENT round, which need not start at the
+/// initial sequence) turns from Awaited into Failed with the same sequence / ttl / round / ports,
+/// its neighbour and the slot a round-0-relative index would name stay as they were, no counter moves.
+fn fail_probe_slot(initial: u16, rs: u16, k: u16) {
+    let v6: bool = kani::any();
+    let mut cfg = any_strategy_config(v6);
+    cfg.initial_sequence = Sequence(initial);
+    kani::assume(accepted(&cfg));
+    let mut st = any_state_at(cfg, rs, k);
+    kani::assume(inv_scalar(&st));
+    let last = usize::from(k) - 1;
+    let p = any_probe_at(&st, last as u16);
+    st.buffer[last] = ProbeStatus::Awaited(p.clone());
+    if last >= 1 {
+        st.buffer[last - 1] = ProbeStatus::Skipped;
+    }
+    let (seq0, ttl0, round0) = (st.sequence, st.ttl, st.round);
+    st.fail_probe();
+    match &st.buffer[last] {
+        ProbeStatus::Failed(f) => {
+            assert!(f.sequence == p.sequence && f.ttl == p.ttl && f.round == p.round, "exactly that probe is marked failed");
+            assert!(f.identifier == p.identifier && f.src_port == p.src_port && f.dest_port == p.dest_port);
+        }
+        _ => assert!(false, "the probe issued last is marked Failed"),
+    }
+    if last >= 1 {
+        assert!(matches!(st.buffer[last - 1], ProbeStatus::Skipped), "neighbour untouched");
+    }
+    if usize::from(k) < 512 {
+        assert!(matches!(st.buffer[usize::from(k)], ProbeStatus::NotSent), "next slot untouched");
+    }
+    assert!(st.sequence == seq0 && st.ttl == ttl0 && st.round == round0, "no counter moves");
+    kani::cover!(true, "reachable");
+    std::mem::forget(st);
+    std::mem::forget(p);
+}
+
+macro_rules! fail_probe_slot_harness {
+    ($name:ident, $initial:expr, $rs:expr, $k:expr) => {
+        #[kani::proof]
+        #[kani::unwind(2)]
+        fn $name() {
+            fail_probe_slot($initial, $rs, $k);
+        }
+    };
+}
+fail_probe_slot_harness!(c09_fail_probe_slot_100_300_5, 100, 300, 5);
+fail_probe_slot_harness!(c09_fail_probe_slot_33434_33434_1, 33434, 33434, 1);
+fail_probe_slot_harness!(c09_fail_probe_slot_0_65022_511, 0, 65022, 511);
+
 // =========================================================================== C09: termination
 
 /// `finished(n)` <=> round >= n for every n >= 1 and every round counter.
